@@ -10,7 +10,7 @@ from .. import reach
 PROPERTY = "C08"
 LEVEL = "exploration"
 ANCHORS = ["src/pylife/materiallaws/woehlercurve.py", "src/pylife/utils/functions.py", "src/pylife/strength/fatigue.py"]
-SHARDS = {"quick": 4, "thorough": 16}
+SHARDS = {"quick": 8, "thorough": 16}
 WATCHDOG = {"quick": 900, "thorough": 3000}
 REQUIRED_CLASSES = {t: ["k_2=inf", "k_2=k_1", "k_2_finite", "TN_only", "TS_only", "TN_and_TS", "no_scatter",
                         "native_probability!=0.5", "load==SD_exactly", "load_below_SD", "load_above_SD",
@@ -50,7 +50,7 @@ def finish(ctx):
 
 def generate(ctx):
     rng = ctx.rng
-    n = ctx.scaled({"quick": 3000, "thorough": 400000}[ctx.tier])
+    n = ctx.scaled({"quick": 3000, "thorough": 150000}[ctx.tier])
     for i in range(n):
         k1 = float(rng.uniform(1.05, 15.0)) if rng.random() < 0.8 else float(rng.integers(2, 12))
         r = i % 4
